@@ -320,6 +320,14 @@ func (r *Raft) onInstallSnapRequest(req *installSnapReq, c *conn) (rpcResult, er
 	}
 	verifPointR(r, "install.stored")
 
+	// our state machine is behind the snapshot (see above): it restores from
+	// it, and we wait until it has - it may still be reading entries of the
+	// log that is compacted or discarded below
+	r.fsm.ch <- fsmRestoreReq{r.fsmRestoredCh}
+	if err := <-r.fsmRestoredCh; err != nil {
+		return unexpectedErr, err
+	}
+
 	discardLog := true
 	if r.storage.log.Contains(meta.index) {
 		metaTerm, err := r.storage.getEntryTerm(meta.index)
@@ -333,12 +341,7 @@ func (r *Raft) onInstallSnapRequest(req *installSnapReq, c *conn) (rpcResult, er
 				return unexpectedErr, err
 			}
 			discardLog = false
-			if r.commitIndex < meta.index {
-				// our state machine is behind the snapshot, and the entries
-				// it would have to apply are gone: restore it as well
-				r.fsm.ch <- fsmRestoreReq{r.fsmRestoredCh}
-				r.setCommitIndex(meta.index)
-			}
+			r.setCommitIndex(meta.index)
 		}
 	}
 	if discardLog {
@@ -346,12 +349,6 @@ func (r *Raft) onInstallSnapRequest(req *installSnapReq, c *conn) (rpcResult, er
 			return unexpectedErr, err
 		}
 
-		// todo: dont wait for restoreFSM to complete
-		//       if restoreFSM fails panic and exit
-		//       if takeSnap req came meanwhile, reply inProgress(restoreFSM)
-
-		// restore fsm from this snapshot
-		r.fsm.ch <- fsmRestoreReq{r.fsmRestoredCh}
 		r.commitIndex, _ = r.snaps.latest()
 		verifCommit(r)
 
